@@ -126,83 +126,55 @@ def specRun {α : Type} (l : List α) : List ItOp → Nat → List (ItOut α)
   | [], _ => []
   | op :: rest, p => (specStep l op p).1 :: specRun l rest (specStep l op p).2
 
-/-- the same with the two answers the code AS WRITTEN gives instead: `len()` = the total `num_args`,
-    `size_hint()` = the default `(0, None)` -/
-def specStepW {α : Type} (l : List α) (op : ItOp) (p : Nat) : ItOut α × Nat :=
-  match op with
-  | .len => (.num l.length, p)
-  | .sizeHint => (.hint 0 none, p)
-  | op => specStep l op p
-
-def specRunW {α : Type} (l : List α) : List ItOp → Nat → List (ItOut α)
-  | [], _ => []
-  | op :: rest, p => (specStepW l op p).1 :: specRunW l rest (specStepW l op p).2
-
 /-- well-formed call (`step_by(0)` panics in `core`: `assert!(step != 0)`) -/
 def ItOp.wf : ItOp → Prop
   | .stepBy k => 0 < k
   | _ => True
-
-/-- the calls whose answers are items of the argument vector (everything but `len` / `size_hint`) -/
-def ItOp.yields : ItOp → Prop
-  | .len => False
-  | .sizeHint => False
-  | .stepBy k => 0 < k
-  | _ => True
-
-theorem ItOp.yields_wf {op : ItOp} (h : op.yields) : op.wf := by
-  cases op <;> simp_all [ItOp.yields, ItOp.wf]
-
-theorem specStepW_of_yields {α : Type} (l : List α) {op : ItOp} (h : op.yields) (p : Nat) :
-    specStepW l op p = specStep l op p := by
-  cases op <;> simp_all [ItOp.yields, specStepW]
-
-theorem specRunW_of_yields {α : Type} (l : List α) : ∀ (ops : List ItOp) (p : Nat), (∀ op ∈ ops, op.yields) →
-    specRunW l ops p = specRun l ops p
-  | [], _, _ => rfl
-  | op :: rest, p, h => by
-    simp only [specRunW, specRun, specStepW_of_yields l (h op (by simp)) p]
-    rw [specRunW_of_yields l rest _ (fun o ho => h o (by simp [ho]))]
 
 section cursor
 variable {α : Type} {nx : Nx α} {l : List α} {n : Nat}
 
 theorem itStep_eq (H : NextSpec nx l n) (hn : l.length = n) (fuel : Nat) (hf : n < fuel) (op : ItOp) (hop : op.wf)
     (i : Nat) (hi : i ≤ n) :
-    itStep nx fuel op ⟨i, n⟩ = .ok ((specStepW l op i).1, ⟨(specStepW l op i).2, n⟩) := by
+    itStep nx fuel op ⟨i, n⟩ = .ok ((specStep l op i).1, ⟨(specStep l op i).2, n⟩) := by
   cases op with
   | next =>
     have := nthWith_eq H hn 0 i hi
     simp only [nthWith, Nat.add_zero] at this
-    simp only [itStep, specStepW, specStep, this, R.bind_ok, hn]
-  | nth k => simp only [itStep, specStepW, specStep, nthWith_eq H hn k i hi, R.bind_ok, hn]
-  | skip k => simp only [itStep, specStepW, specStep, skipNextWith_eq H hn k i hi, R.bind_ok, hn]
+    simp only [itStep, specStep, this, R.bind_ok, hn]
+  | nth k => simp only [itStep, specStep, nthWith_eq H hn k i hi, R.bind_ok, hn]
+  | skip k => simp only [itStep, specStep, skipNextWith_eq H hn k i hi, R.bind_ok, hn]
   | stepBy k =>
     have hk : k ≠ 0 := by simp only [ItOp.wf] at hop; omega
-    simp only [itStep, specStepW, specStep, if_neg hk, stepLoopWith_eq H hn (k - 1) fuel true i hi (by omega), R.bind_ok, if_true,
+    simp only [itStep, specStep, if_neg hk, stepLoopWith_eq H hn (k - 1) fuel true i hi (by omega), R.bind_ok, if_true,
       Nat.add_zero, hn]
     rw [show k - 1 + 1 = k by omega]
-  | len => simp only [itStep, specStepW, ArgsOs.len, hn]
-  | sizeHint => simp only [itStep, specStepW]
+  | len =>
+    -- `num_args - ind` does not overflow: `ind ≤ num_args`
+    have hno : ¬ n < i := by omega
+    simp only [itStep, specStep, ArgsOs.len, hn, if_neg hno]
+  | sizeHint =>
+    have hno : ¬ n < i := by omega
+    simp only [itStep, specStep, ArgsOs.len, hn, if_neg hno]
   | count =>
-    simp only [itStep, specStepW, specStep, drainWith_eq H hn fuel i hi (by omega), R.bind_ok, List.length_drop, hn]
+    simp only [itStep, specStep, drainWith_eq H hn fuel i hi (by omega), R.bind_ok, List.length_drop, hn]
   | last =>
-    simp only [itStep, specStepW, specStep, drainWith_eq H hn fuel i hi (by omega), R.bind_ok, lastOf_eq, hn]
+    simp only [itStep, specStep, drainWith_eq H hn fuel i hi (by omega), R.bind_ok, lastOf_eq, hn]
   | fold =>
-    simp only [itStep, specStepW, specStep, drainWith_eq H hn fuel i hi (by omega), R.bind_ok, hn]
+    simp only [itStep, specStep, drainWith_eq H hn fuel i hi (by omega), R.bind_ok, hn]
 
-theorem specStepW_le (l : List α) (op : ItOp) (i : Nat) (hi : i ≤ l.length) : (specStepW l op i).2 ≤ l.length := by
-  cases op <;> simp only [specStepW, specStep] <;> omega
+theorem specStep_le (l : List α) (op : ItOp) (i : Nat) (hi : i ≤ l.length) : (specStep l op i).2 ≤ l.length := by
+  cases op <;> simp only [specStep] <;> omega
 
 theorem runOps_eq (H : NextSpec nx l n) (hn : l.length = n) (fuel : Nat) (hf : n < fuel) :
     ∀ (ops : List ItOp) (i : Nat), (∀ op ∈ ops, op.wf) → i ≤ n →
-      runOps nx fuel ops ⟨i, n⟩ = .ok (specRunW l ops i)
+      runOps nx fuel ops ⟨i, n⟩ = .ok (specRun l ops i)
   | [], _, _, _ => rfl
   | op :: rest, i, hops, hi => by
     have h1 := itStep_eq H hn fuel hf op (hops op (by simp)) i hi
-    have h2 := runOps_eq H hn fuel hf rest (specStepW l op i).2 (fun o ho => hops o (by simp [ho]))
-      (hn ▸ specStepW_le l op i (hn ▸ hi))
-    simp only [runOps, h1, R.bind_ok, h2, specRunW]
+    have h2 := runOps_eq H hn fuel hf rest (specStep l op i).2 (fun o ho => hops o (by simp [ho]))
+      (hn ▸ specStep_le l op i (hn ▸ hi))
+    simp only [runOps, h1, R.bind_ok, h2, specRun]
 
 end cursor
 
